@@ -79,6 +79,10 @@ def _version(rng, i, kind, sibling=False):
     if rng.random() < 0.15:
         # a tracked symbolic link to a module of the package (`compat.py -> a.py`): two file names, one file
         files["compat.py"] = "<LINK:a.py>"
+    if rng.random() < 0.2:
+        # a namespace sub-package (a directory without __init__): it comes and goes between versions
+        files["nsp/x.py"] = f"def h(a={i}):\n    return a\n"
+        files["__init__.py"] = files["__init__.py"].replace('__all__ = ["f"]', '__all__ = ["f", "nsp"]')
     if kind == "syntax":
         files["a.py"] = "def f(:\n    pass\n"
     elif kind == "undecodable":
@@ -934,6 +938,9 @@ def execute(plan, ctx):
                             break
             else:
                 ctx.probe("op-failed-" + outcome)
+                if op["op"] == "check" and not faults and outcome in ("ValueError", "TypeError", "AttributeError", "KeyError", "IndexError"):
+                    ctx.fail("U-check-crashed", f"check({op.get('against')}, base_ref={op.get('base_ref')}) without any injected fault ended with {outcome}", tags=tags)
+                    break
         else:
             pass
     finally:
